@@ -113,7 +113,8 @@ def spec : List String → List String → Option String
             (match (v.splitOn ",").mapM String.toNat? with
              | some [hh, mm] => g = [hh, mm] && hh ≤ 24 && mm ≤ 59 && (hh != 24 || mm == 0)
              | _ => false)
-          | "pin-json" => (match v.toNat? with | some n => n ≤ 999999 && (g = [n] || (s.isEmpty && n = 0)) | none => false)
+          | "pin-json" =>   -- "PINs longer than six digits" are rejected, whatever number they spell
+            (match v.toNat? with | some n => n ≤ 999999 && (s.filter Char.isDigit).length ≤ 6 && (g = [n] || (s.isEmpty && n = 0)) | none => false)
           | "cs-json" => false                                   -- only the three names are control states
           | "task-tsv" | "task-json-raw" =>
             (match v.toNat? with
